@@ -25,9 +25,17 @@ LEVEL_NOTE = ("Proof covers scanners, enrichment, merge order-independence. Samp
               "external pkl binary). Errors compared as error / no error.")
 TECHNIQUE = "Lean 4 proof over an executable model + cross-format differential correspondence + corruption fuzzing of the real loaders"
 OBLIGATIONS = [
+    "Grog.C16.scanner_total",
     "Grog.C16.scanner_no_index_error",
+    "Grog.C16.script_scanner_no_index_error",
+    "Grog.C16.makefile_fields",
+    "Grog.C16.enrich_deterministic",
+    "Grog.C16.merge_order_independent",
+    "Grog.C16.load_ok_iff_labels_distinct",
     "Grog.C16.makefile_panic_witness",
     "Grog.C16.makefile_bare_annotation_loads",
+    "Grog.C16.makefile_fields_dropped_witness",
+    "Grog.C16.merge_asymmetry_witness",
 ]
 ASSUMPTIONS = [
     "yaml.v3, encoding/json, go.starlark.net, doublestar and time.ParseDuration are trusted third-party code: parameters of the model, "
